@@ -6,7 +6,8 @@ small in-memory node.  Real time; used for C17 (stdout framing under logging), C
 import json, os, socket, subprocess, threading, time, tempfile, shutil, random, hashlib, select
 from . import run
 
-VERIF = "/verif"
+# root of this verification tree (normally /verif; a snapshot under /root/.vp/runs/<n>/verif for `vp run`)
+VERIF = os.path.dirname(os.path.dirname(os.path.dirname(os.path.realpath(__file__))))
 BIN = VERIF + "/target/e2e/debug/trampoline"
 
 def build():
